@@ -130,49 +130,60 @@ enum Zone<'a> {
 }
 
 fn zone<'a>(pm: &'a PrintedModule, o: usize) -> Zone<'a> {
+    // a position inside a token belongs to that token, even if it is also the position right after the previous one
+    // (tokens may touch: `wrap@item`)
+    for pass in 0..2 {
+        if let Some(z) = zone_pass(pm, o, pass == 0) {
+            return z;
+        }
+    }
+    Zone::Nothing
+}
+
+fn zone_pass<'a>(pm: &'a PrintedModule, o: usize, strict: bool) -> Option<Zone<'a>> {
     for occ in &pm.occs {
-        let inside = occ.range.start <= o && o < occ.range.end;
-        let after = o == occ.range.end;
+        let inside = strict && occ.range.start <= o && o < occ.range.end;
+        let after = !strict && o == occ.range.end;
         match &occ.role {
             Role::Use(t) => {
                 if inside {
-                    return Zone::Use(t);
+                    return Some(Zone::Use(t));
                 }
                 if after {
-                    return Zone::Lenient(Some(t));
+                    return Some(Zone::Lenient(Some(t)));
                 }
                 if let Some(q) = &occ.qual {
-                    if q.start <= o && o < occ.range.start {
-                        return Zone::Lenient(Some(t));
+                    if !strict && q.start <= o && o < occ.range.start {
+                        return Some(Zone::Lenient(Some(t)));
                     }
                 }
             }
             Role::DeclName(d) => {
                 if inside {
-                    return Zone::DeclName(*d);
+                    return Some(Zone::DeclName(*d));
                 }
                 if after {
-                    return Zone::Lenient(None);
+                    return Some(Zone::Lenient(None));
                 }
             }
             Role::ParamBinder(d, i) => {
                 if inside || after {
-                    return Zone::Binder(Some(Target::Param(*d, *i)));
+                    return Some(Zone::Binder(Some(Target::Param(*d, *i))));
                 }
             }
             Role::RecBinder(id) => {
                 if inside || after {
-                    return Zone::Binder(Some(Target::Rec(*id)));
+                    return Some(Zone::Binder(Some(Target::Rec(*id))));
                 }
             }
             Role::ImportQual(..) => {
                 if inside || after {
-                    return Zone::Binder(None);
+                    return Some(Zone::Binder(None));
                 }
             }
         }
     }
-    Zone::Nothing
+    None
 }
 
 fn sweep(info: &WsInfo, lsp: &mut Lsp, stride: usize, phase: usize, st: &mut Stats) -> Result<Vec<Violation>, LspError> {
@@ -358,6 +369,8 @@ impl Workload for Navigation {
         let Some(mut c) = gen_wt_case(seed, "c17", idx, &cfg(), st) else { return vec![] };
         if idx % 2 == 1 {
             with_trivia(&mut c, seed, "c17", idx);
+        } else if idx % 4 == 0 {
+            with_tight(&mut c);
         }
         let v = run_case(&c, self.stride, idx as usize, st);
         st.nontrivial(hash64(&c.sources.files));
@@ -374,6 +387,8 @@ impl Workload for Navigation {
         let Some(mut c) = gen_wt_case(seed, "c17", idx, &cfg(), st) else { return vec![] };
         if idx % 2 == 1 {
             with_trivia(&mut c, seed, "c17", idx);
+        } else if idx % 4 == 0 {
+            with_tight(&mut c);
         }
         run_case(&c, 1, 0, st)
     }
